@@ -1,6 +1,6 @@
 // hx_raft — drives the real agdb_server/src/raft.rs (build-time copy, virtual clock) from event lists.
 //   hx_raft gen     --seed S --n N --len L --out DIR      random adversarial event lists (3 nodes, every 6th case 5 nodes)
-//   hx_raft replay  --file F --out DIR                    explicit event lists, one per line: "<nodes> (T ..) (D ..) ..."
+//   hx_raft replay  --file F --out DIR                    explicit event lists, one per line: "[G:d1,d2 ]<nodes> (T ..) (D ..) ..."
 //   hx_raft live    --seed S --n N --out DIR              fault-free timed simulations (C30): real timeouts, every message delivered
 //   hx_raft explore --depth D --budget B --out DIR        bounded exhaustive exploration of 3-node clusters (search only)
 // Files written to DIR: cases.txt (input of the model driver), impl.txt (implementation's observations, same order),
@@ -345,8 +345,16 @@ fn main() {
             for line in text.lines() {
                 let line = line.trim();
                 if line.is_empty() || line.starts_with('#') { continue; }
+                // optional prefix "G:d1,d2,.. " = the run must end synced with exactly these entries (C30 goal)
+                let (goal, line) = match line.strip_prefix("G:") {
+                    Some(rest) => {
+                        let (g, l) = rest.split_once(' ').unwrap_or((rest, ""));
+                        (Some(g.split(',').filter(|x| !x.is_empty()).map(|x| x.parse::<u64>().unwrap()).collect::<Vec<u64>>()), l.trim())
+                    }
+                    None => (None, line),
+                };
                 match sim::parse_events(line) {
-                    Some((size, evs)) => { out.run_case(size, &evs, "corpus", None); }
+                    Some((size, evs)) => { out.run_case(size, &evs, "corpus", goal.as_deref()); }
                     None => { eprintln!("bad event list: {}", line); std::process::exit(2); }
                 }
             }
